@@ -11,7 +11,9 @@ E-hist over insertion histories:
  (D) purity: for a menu of trees holding every value class, observable state (classes, parameters, python values)
      before == after to_ical(), and a second to_ical() gives the same bytes; sorted on and off;
  (E) every output is a balanced, properly nested BEGIN/END sequence;
- (F) the same script builds ~250 trees in sub-processes with PYTHONHASHSEED = 0..7 (thorough 0..63): identical digests.
+ (F) the same script builds ~250 trees in sub-processes with PYTHONHASHSEED = 0..7 (thorough 0..63): identical digests;
+ (G) ~65 trees (the purity menu plus look-alike values: month 5 / 5L, 0 / False / 0.0, 'A' / 'a') serialised in three different
+     orders in three fresh processes: every tree's bytes are the same whatever was serialised before it.
 """
 import hashlib
 import itertools
@@ -357,6 +359,31 @@ def replay(case):
 
 
 # ---------------------------------------------------------------- (F) hash seeds
+def emit_per_tree(order):
+    """Serialise the purity-menu trees (plus look-alike values) in the given order and print one digest per tree:
+    the bytes of a tree must not depend on what was serialised earlier in the process."""
+    from icalendar.prop import vMonth
+    builders = []
+    for idx in range(len(value_menu())):
+        builders.append((f"menu{idx}", lambda idx=idx: purity_tree(idx, True, True)))
+    for label, mk in (("month5", lambda: vRecur(freq="yearly", bymonth=[vMonth(5)])), ("month5L", lambda: vRecur(freq="yearly", bymonth=[vMonth("5L")])),
+                      ("int0", lambda: vInt(0)), ("boolF", lambda: vBoolean(False)), ("float0", lambda: vFloat(0.0)),
+                      ("textA", lambda: vText("A")), ("texta", lambda: vText("a")), ("uriA", lambda: vUri("A"))):
+        def build(mk=mk):
+            ev = Event()
+            ev["x-v"] = mk()
+            return ev
+        builders.append((label, build))
+    if order == "reverse":
+        builders = builders[::-1]
+    elif order == "interleaved":
+        builders = builders[1::2] + builders[0::2]
+    out = {}
+    for label, mk in builders:
+        out[label] = hashlib.sha256(mk().to_ical()).hexdigest()[:16]
+    print(" ".join(f"{k}={v}" for k, v in sorted(out.items())))
+
+
 def emit_digest():
     """Build a fixed family of trees and print one digest (run in sub-processes with different PYTHONHASHSEED)."""
     h = hashlib.sha256()
@@ -436,3 +463,20 @@ def run(ctx):
     if len(distinct) != 1:
         res["fails"].append(fail("output-depends-on-PYTHONHASHSEED", ("hashseed", tuple(sorted(digests.items()))), "one digest", distinct))
     ctx.absorb("hash-seeds", ("hashseed", len(digests)), res)
+    # (G) history independence across a process: per-tree digests in three serialisation orders
+    maps = {}
+    for order in ("forward", "reverse", "interleaved"):
+        p = subprocess.run([sys.executable, "-c", f"from mc.checks import c10; c10.emit_per_tree({order!r})"],
+                           cwd=os.path.dirname(os.path.dirname(os.path.dirname(os.path.abspath(__file__)))),
+                           env=dict(os.environ, PYTHONHASHSEED="0"), capture_output=True, text=True)
+        if p.returncode != 0:
+            from mc.core import HarnessError
+            raise HarnessError(f"order subprocess failed: {p.stderr[-500:]}")
+        maps[order] = dict(kv.split("=") for kv in p.stdout.strip().split())
+    diff = sorted(k for k in maps["forward"] if len({m.get(k) for m in maps.values()}) != 1)
+    ctx.part("process-history", orders=3, trees=len(maps["forward"]), differing=len(diff))
+    res = {"n": 3 * len(maps["forward"]), "state": ("orders", tuple(diff)), "trans": 3 * len(maps["forward"]), "traces": 3,
+           "nontrivial": True, "outcome": "orders-ok" if not diff else "FAIL", "fails": []}
+    if diff:
+        res["fails"].append(fail("bytes-depend-on-what-was-serialised-before", ("orders", tuple(diff)), "same bytes in every order", diff))
+    ctx.absorb("process-history", ("orders", 3), res)
